@@ -646,8 +646,8 @@ def run_batch(job):
 def select_quick(seed):
     rng = C.Rng(seed, 14)
     space = case_space(MAX_STEPS)
-    order = rng.shuffle(list(range(len(space))))
-    order.sort(key=lambda k: len(space[k][1]))       # short chains first, random within a length
+    order = C.Rng(0, 1414).shuffle(list(range(len(space))))   # the core does not depend on the seed
+    order.sort(key=lambda k: len(space[k][1]))       # short chains first
     covered, core = set(), []
     for k in order:
         root, steps, op = space[k]
@@ -748,6 +748,9 @@ def run(tier, seed):
             return [{"case": cs, "status": "inconclusive", "note": f"infrastructure: {e}", "kinds": [], "helps": []} for cs in job[2]]
 
     results = [v for out in C.pmap(safe, jobs) for v in out]
+    for v in results:
+        if v["status"] in ("held_accept", "held_reject"):
+            v.pop("text", None)
 
     counters = {"space_size_le3_steps": nspace, "core_cases": ncore, "cases_run": len(results)}
     inconc, viol_by_class, samples, distinct = [], {}, [], set()
